@@ -18,6 +18,13 @@
 (*            zero-operand operator `one`: the stack peaks at an OPERATOR  *)
 (*  "cmpfan"  (op (= n n) ... (= n n))  a comparisons under and/or         *)
 (*  "ifchain" (if x (if x (... n) n) n) a nested ifs in the true branch    *)
+(*  "cmpfan2" (and (or (= n n)..b) ..a)  a groups of b fast comparisons    *)
+(*            (fast operators get fewer event nodes; different kinds, so   *)
+(*            nothing flattens)                                            *)
+(*  "chainR3" (+ n n CHAIN)  a three-operand operator over a right-leaning *)
+(*            chain of a operators: an EVEN node count                     *)
+(*  "fanchain" (+ n ..a CHAIN(b))  a wide fan whose last operand is a deep *)
+(*            chain: width and depth together                              *)
 (* v is the variable n for arithmetic operators and x for and/or, so       *)
 (* constant folding cannot remove anything.                                *)
 (***************************************************************************)
@@ -42,6 +49,9 @@ Build(d) ==
     [] d.fam = "chainZ" -> ChainR(d.op, O("one", <<>>), d.a)       \* innermost leaf is a zero-operand operator call
     [] d.fam = "cmpfan" -> O(d.op, Rep(O("=", <<V("n"), V("n")>>), d.a))
     [] d.fam = "ifchain" -> O("+", <<IfChain(d.a), V("n")>>)
+    [] d.fam = "cmpfan2" -> O("and", Rep(O("or", Rep(O("=", <<V("n"), V("n")>>), d.b)), d.a))
+    [] d.fam = "chainR3" -> O("+", <<V("n"), V("n"), ChainR("+", V("n"), d.a)>>)
+    [] d.fam = "fanchain" -> O("+", Rep(V("n"), d.a) \o <<ChainR("+", V("n"), d.b)>>)
 
 Max2(a, b) == IF a > b THEN a ELSE b
 
@@ -55,6 +65,9 @@ NodesOf(d, m) ==
     [] d.fam = "chainZ" -> 2 * d.a + 1
     [] d.fam = "cmpfan" -> 3 * d.a + 1
     [] d.fam = "ifchain" -> 4 * d.a + 3     \* per if: cond, IF, FI, else-leaf; + innermost n, outer n, +
+    [] d.fam = "cmpfan2" -> 1 + d.a * (1 + 3 * d.b)
+    [] d.fam = "chainR3" -> 2 * d.a + 4
+    [] d.fam = "fanchain" -> d.a + 2 * d.b + 2
 KidsOf(d, m) ==
   CASE d.fam = "fan" -> d.a
     [] d.fam = "nestfan" -> IF Flattens(d, m) THEN d.a + d.b ELSE Max2(2, Max2(d.a, d.b))
@@ -62,9 +75,15 @@ KidsOf(d, m) ==
     [] d.fam = "chainZ" -> IF d.a = 0 THEN 0 ELSE 2
     [] d.fam = "cmpfan" -> Max2(2, d.a)
     [] d.fam = "ifchain" -> IF d.a = 0 THEN 2 ELSE 4
+    [] d.fam = "cmpfan2" -> Max2(2, Max2(d.a, d.b))
+    [] d.fam = "chainR3" -> 3
+    [] d.fam = "fanchain" -> Max2(d.a + 1, IF d.b > 0 THEN 2 ELSE 0)
 \* value under env (n an int, x a bool); and/or of copies of x is x; (= n n) is true
 ValueOf(d, env) ==
-  CASE IsBoolName(d.op) /\ d.fam # "cmpfan" /\ d.fam # "ifchain" -> env.x
+  CASE d.fam = "cmpfan2" -> B(TRUE)
+    [] d.fam = "chainR3" -> I((d.a + 3) * env.n.v)
+    [] d.fam = "fanchain" -> I((d.a + d.b + 1) * env.n.v)
+    [] IsBoolName(d.op) /\ d.fam # "cmpfan" /\ d.fam # "ifchain" -> env.x
     [] d.fam = "cmpfan" -> B(TRUE)
     [] d.fam = "fan" -> (CASE Canon(d.op) = "add" -> I(d.a * env.n.v) [] Canon(d.op) = "mul" -> I(env.n.v))
     [] d.fam \in {"chainR", "chainL"} -> I((d.a + 1) * env.n.v)
